@@ -1506,6 +1506,20 @@ class SMPLayer(Layer):
                 elif self.state.method in (PM_LESC_NUMCOMP, PM_LESC_JUSTWORKS, PM_LESC_PASSKEY):
                     # Generate the P256 keypair
                     self.state.private_key, self.state.public_key = self.get_custom_function("generate_p256_keypair")()
+                else:
+                    # OOB pairing is not implemented (no OOB data can be provided):
+                    # report it to the peer instead of waiting for a key we cannot compute.
+                    logger.info('OOB pairing selected but OOB data is not available, report error.')
+
+                    # Notify error
+                    error = SM_Failed(
+                        reason = SM_ERROR_OOB_NOT_AVAIL
+                    )
+                    self.send_data(error)
+
+                    # Return to IDLE mode
+                    self.reset_state()
+                    self.state.last_failure = SM_ERROR_OOB_NOT_AVAIL
 
             else:
                 logger.info('Pairing declined.')
@@ -1759,7 +1773,25 @@ class SMPLayer(Layer):
                 # Generate the P256 keypair
                 self.state.private_key, self.state.public_key = self.get_custom_function("generate_p256_keypair")()
 
-            if self.state.method in (PM_LEGACY_JUSTWORKS, PM_LEGACY_PASSKEY):
+            if self.state.method not in (
+                PM_LEGACY_JUSTWORKS, PM_LEGACY_PASSKEY,
+                PM_LESC_NUMCOMP, PM_LESC_JUSTWORKS, PM_LESC_PASSKEY
+            ):
+                # OOB pairing is not implemented (no OOB data can be provided):
+                # report it to the peer instead of failing on a missing key pair.
+                logger.info('OOB pairing selected but OOB data is not available, report error.')
+
+                # Notify error
+                error = SM_Failed(
+                    reason = SM_ERROR_OOB_NOT_AVAIL
+                )
+                self.send_data(error)
+
+                # Return to IDLE mode
+                self.reset_state()
+                self.state.last_failure = SM_ERROR_OOB_NOT_AVAIL
+
+            elif self.state.method in (PM_LEGACY_JUSTWORKS, PM_LEGACY_PASSKEY):
                 # Generate a RAND and compute CONFIRM
                 self.state.initiator.generate_legacy_rand()
                 self.state.initiator.confirm = self.get_custom_function("compute_legacy_confirm_value")(
